@@ -202,7 +202,7 @@ package dials
 //@          && rec_deepCopyValue_arg1[old(rec_deepCopyValue_cnt) + k] == ite(kind(vtype(sources[k].value)) == Ptr, vElemH(old(rh), sources[k].value), sources[k].value)
 //@     invariant rec_realDeepCopy_cnt == old(rec_realDeepCopy_cnt) + 1 && rec_realDeepCopy_arg0[old(rec_realDeepCopy_cnt)] == t
 //@     invariant C02_the_layers_and_the_defaults_are_never_written: olderObjectsUntouched(old(rh)) && youngT >= old(clock) && clock >= youngT
-//@   ensures C05_compose_err_nil_result: err != nil ==> r == nil
+//@   ensures C04_C05_compose_err_nil_result: err != nil ==> r == nil
 //@   ensures C05_compose_type: err == nil ==> dyn(r) == dyn(t) && pay(r) != nil && fresh(pay(r))
 //@   ensures C02_result_is_the_fresh_copy_of_the_defaults: err == nil ==> rec_realDeepCopy_cnt == old(rec_realDeepCopy_cnt) + 1
 //@        && rec_realDeepCopy_arg0[old(rec_realDeepCopy_cnt)] == t && pay(r) == vptrH(old(rh), rec_realDeepCopy_res0[old(rec_realDeepCopy_cnt)]) && pay(r) != pay(t)
@@ -268,7 +268,7 @@ package dials
 //@         && errEv(sentlog_Iface[d.cbch][old(sent)[d.cbch]]).err == theErr(old(rec_compose_cnt), old(vlogLen))
 //@         && errEv(sentlog_Iface[d.cbch][old(sent)[d.cbch]]).oldConfig == old(stored(d).cfg)
 //@         && errEv(sentlog_Iface[d.cbch][old(sent)[d.cbch]]).newConfig == ite(cmpErr(old(rec_compose_cnt)) != nil, nil, pay(cmpRes(old(rec_compose_cnt)))))
-//@   ensures C04_C09_one_error_event_iff_rejected: rec_submitEvent_cnt == old(rec_submitEvent_cnt) + b2i(nv == nil)
+//@   ensures C04_C06_C09_one_error_event_iff_rejected: rec_submitEvent_cnt == old(rec_submitEvent_cnt) + b2i(nv == nil)
 //@        && (nv == nil ==> isErrEv(rec_submitEvent_arg2[old(rec_submitEvent_cnt)]))
 //@   ensures C04_C05_installed: nv != nil ==> nv == pay(cmpRes(old(rec_compose_cnt)))
 //@        && stored(d) != nil && fresh(stored(d)) && stored(d).cfg == nv && stored(d).serial == old(stored(d).serial) + 1
